@@ -18,6 +18,8 @@ def install_all(reg):
     from . import attractors
     attractors.install(reg)
     attractors.install_sets(reg)
+    from . import candidates
+    candidates.install(reg)
     algorithms.install(reg)
     algorithms.install_skipnode(reg)
     algorithms.install_target(reg)
